@@ -3,9 +3,12 @@ package main
 import (
 	"bytes"
 	"fmt"
+	"github.com/thomasjungblut/go-sstables/skiplist"
+	"hash/crc64"
 	"math/rand"
 	"os"
 	"path/filepath"
+	"strings"
 
 	"github.com/thomasjungblut/go-sstables/sstables"
 )
@@ -26,8 +29,10 @@ type c09Case struct {
 	KVs      []tblKV `json:"kvs"`
 	DataComp int     `json:"dcomp"`
 	Loader   string  `json:"loader"`
-	OnRead   bool    `json:"on_read"` // SkipHashCheckOnLoad + EnableHashCheckOnReads instead of the default verify-on-load
-	Vals     []int   `json:"vals"`    // replacement values; -1 = flip lowest bit, -2 = flip highest bit
+	OnRead   bool    `json:"on_read"`            // SkipHashCheckOnLoad + EnableHashCheckOnReads instead of the default verify-on-load
+	OptSwap  bool    `json:"opt_swap,omitempty"` // the two options in the other order
+	Stacked  bool    `json:"stacked,omitempty"`  // read through a SuperSSTableReader over an older table holding other values for the same keys
+	Vals     []int   `json:"vals"`               // replacement values; -1 = flip lowest bit, -2 = flip highest bit
 	// observations
 	Data   []byte   `json:"data"`
 	Index  []byte   `json:"index"`
@@ -42,8 +47,10 @@ func (c *c09Case) observe(dir string, data []byte, ob *dmgObs) {
 	if c.Loader != "" && c.Loader != "slice" {
 		opts = append(opts, sstables.ReadIndexLoader(loaderFor(c.Loader, 4096)))
 	}
-	if c.OnRead {
+	if c.OnRead && !c.OptSwap {
 		opts = append(opts, sstables.SkipHashCheckOnLoad(), sstables.EnableHashCheckOnReads())
+	} else if c.OnRead {
+		opts = append(opts, sstables.EnableHashCheckOnReads(), sstables.SkipHashCheckOnLoad())
 	}
 	func() {
 		defer func() {
@@ -51,12 +58,24 @@ func (c *c09Case) observe(dir string, data []byte, ob *dmgObs) {
 				ob.OpenErr = fmt.Sprint("panic: ", r)
 			}
 		}()
-		r, err := sstables.NewSSTableReader(opts...)
+		r0, err := sstables.NewSSTableReader(opts...)
 		if err != nil {
 			ob.OpenErr = classifyErr(err)
 			return
 		}
-		defer r.Close()
+		defer r0.Close()
+		var r sstables.SSTableReaderI = r0
+		if c.Stacked {
+			// an older, undamaged table with OTHER values for the same keys below the damaged one: a failed read of the
+			// newer table must not be answered from the older one
+			old, err := sstables.NewSSTableReader(sstables.ReadBasePath(dir+"-old"), sstables.SkipHashCheckOnLoad(), sstables.EnableHashCheckOnReads())
+			if err != nil {
+				ob.OpenErr = "old table: " + classifyErr(err)
+				return
+			}
+			defer old.Close()
+			r = sstables.NewSuperSSTableReader([]sstables.SSTableReaderI{old, r0}, skiplist.BytesComparator{})
+		}
 		for _, kv := range c.KVs {
 			g := getOut{K: kv.K}
 			v, err := r.Get(kv.K)
@@ -88,6 +107,16 @@ func (c *c09Case) Exec() {
 	o := tblOpts{IndexComp: 0, DataComp: c.DataComp, BloomN: 10, BloomP: 0.01, WBuf: 4096}
 	_, err := writeTable(dir, o, c.KVs)
 	must(err)
+	if c.Stacked {
+		var olds []tblKV
+		for _, kv := range c.KVs {
+			olds = append(olds, tblKV{K: kv.K, V: append([]byte("OLD-"), kv.K...)})
+		}
+		must(os.MkdirAll(dir+"-old", 0755))
+		defer os.RemoveAll(dir + "-old")
+		_, err = writeTable(dir+"-old", o, olds)
+		must(err)
+	}
 	c.Data, c.Index = readFileOr(dir, sstables.DataFileName), readFileOr(dir, sstables.IndexFileName)
 	c.IdxPay = indexEntries(dir)
 	// single byte alterations at every offset
@@ -144,7 +173,13 @@ func (c *c09Case) recordOffsets() []int {
 	return append(offs, len(c.Data))
 }
 
-func (c *c09Case) Oracle() (bool, string) {
+func (c *c09Case) Oracle() (bool, string) { return c.oracle(false) }
+
+var crc64ISO = crc64.MakeTable(crc64.ISO)
+
+// oracle; with exemptZeroCRC a non-empty value whose CRC-64/ISO is 0 is treated like an empty one (finding F-C09a:
+// the zero checksum is the format's "no checksum" marker)
+func (c *c09Case) oracle(exemptZeroCRC bool) (bool, string) {
 	if c.Fatal != "" {
 		return false, c.Fatal
 	}
@@ -160,6 +195,9 @@ func (c *c09Case) Oracle() (bool, string) {
 				if bytes.Equal(kv.K, k) {
 					if len(kv.val()) == 0 {
 						return true, "" // empty / nil values carry a zero checksum by design
+					}
+					if exemptZeroCRC && crc64.Checksum(kv.val(), crc64ISO) == 0 {
+						return true, ""
 					}
 					if isNil || !bytes.Equal(v, kv.val()) {
 						return false, fmt.Sprintf("%s at %d (->%02x): %s returned a different value for key %x without error: %x instead of %x", ob.Kind, ob.Pos, ob.Val, where, k, v, kv.val())
@@ -195,7 +233,7 @@ func (c *c09Case) Oracle() (bool, string) {
 }
 
 func (c *c09Case) Sx() string {
-	if c.Fatal != "" || c.DataComp != 0 || (c.Loader != "" && c.Loader != "slice") {
+	if c.Fatal != "" || c.DataComp != 0 || (c.Loader != "" && c.Loader != "slice") || c.Stacked {
 		return ""
 	}
 	var obs []string
@@ -269,14 +307,39 @@ func genC09(r *rand.Rand, tier string) []Case {
 		}
 		cases = append(cases, c)
 	}
+	// verify-on-read with the options given in the other order; and a stacked reader over an older table
+	for i := 0; i < 4; i++ {
+		c := &c09Case{DataComp: []int{0, 2}[i%2], OnRead: true, OptSwap: i < 2, Stacked: i >= 2, Loader: "slice", Vals: []int{-1, -2, 0x00, 0xff}}
+		for j := 0; j < 4; j++ {
+			c.KVs = append(c.KVs, tblKV{K: []byte(fmt.Sprintf("key-%02d", j)), V: []byte(fmt.Sprintf("new-value-%02d-%s", j, strings.Repeat("x", r.Intn(12))))})
+		}
+		cases = append(cases, c)
+	}
+	// a non-empty value whose CRC-64/ISO is zero, between ordinary values
+	for i := 0; i < 2; i++ {
+		c := &c09Case{DataComp: 0, OnRead: i == 1, Loader: "slice", Vals: []int{-1, -2, 0x00, 0xff}}
+		c.KVs = []tblKV{{K: []byte("key-00"), V: []byte("ordinary")}, {K: []byte("key-01"), V: []byte{0xf4, 0x42, 0x2f, 0xf4, 0x42, 0x2f, 0xf4, 0x12}}, {K: []byte("key-02"), V: []byte("another one")}}
+		cases = append(cases, c)
+	}
 	return cases
 }
 
 func init() {
 	register(&Prop{
 		ID: "C09", Num: 9,
-		Gen:  genC09,
-		New:  func() Case { return &c09Case{} },
+		Gen: genC09,
+		New: func() Case { return &c09Case{} },
+		Classify: func(cs Case, msg string) string {
+			// F-C09a: every wrong answer concerns a non-empty value whose CRC-64/ISO is zero
+			c := cs.(*c09Case)
+			if ok, _ := c.oracle(false); ok {
+				return ""
+			}
+			if ok, _ := c.oracle(true); ok {
+				return "F-C09a"
+			}
+			return ""
+		},
 		Rule: "tables of 3-6 keys (values nil / empty / adversarial, data files of ~100-300 bytes) under each data compression; every byte offset of the data file x {bit 0 flipped, bit 7 flipped, 00, ff, 91, 4c} (all 255 values on some tables in the thorough tier), every truncation length, swaps of neighbouring records; default options (verify on load) and verify-on-read; Get of every key, Scan and ScanStartingAt. Non-trivial: >=2 keys and >10 damages.",
 	})
 }
